@@ -283,7 +283,12 @@ def gen_module(
             " ".join(
                 map(
                     to_code,
-                    optimise_imports(chain(*map(infer_imports, functions_and_classes))),
+                    optimise_imports(
+                        chain.from_iterable(
+                            # `infer_imports` gives `None` when a symbol needs no import
+                            filter(None, map(infer_imports, functions_and_classes))
+                        )
+                    ),
                 )
             ),
         )
